@@ -89,7 +89,7 @@ CHECKS = {
         "technique": "trace validation of compile observations against the TLA+ layout oracle; TLA+ static semantics as acceptance oracle",
     },
     "C17": {
-        "text": "GarbleTypes.tla is an executable specification of the static semantics for fully annotated programs (all types re-derived from declarations and literal suffixes; documented rules only). Generated well-typed programs are projected to ASTs; every applicable site receives every rule-breaking edit of 33 kinds (operand / argument / return / branch / pattern types, conditions, unknown names, immutability, argument / field / variant arity, duplicated fields, tuple index and tuple pattern arity, refutable let / for patterns, literal and pattern literals out of range, direct and mutual recursion, unused private fn, pub fn without parameters), thorough adds pairs of edits; each mutant is rendered, checked by the real checker and is one event of Trace_Types.tla: a mutant that WellTyped rejects must be rejected with errors (accepted, or a checker panic, is a violation). The operator x operand-type matrix (Gen_OpMatrix.tla, 5985 applications) is judged in both directions.",
+        "text": "GarbleTypes.tla is an executable specification of the static semantics for fully annotated programs (all types re-derived from declarations and literal suffixes; documented rules only). Generated well-typed programs are projected to ASTs; every applicable site receives every rule-breaking edit of 33 kinds (operand / argument / return / branch / pattern types, conditions, unknown names, immutability, argument / field / variant arity, duplicated fields, tuple index and tuple pattern arity, refutable let / for patterns, literal and pattern literals out of range, direct and mutual recursion, unused private fn, pub fn without parameters), thorough adds pairs of edits; each mutant is rendered, checked by the real checker and is one event of Trace_Types.tla: a mutant that WellTyped rejects must be rejected with errors (accepted, or a checker panic, is a violation). The operator x operand-type matrix (Gen_OpMatrix.tla, 6285 applications) is judged in both directions.",
         "design_ref": "DESIGN.md \u00a75 C17",
         "note": "Only mutants the specification itself judges ill-typed are demanded to be rejected (coverage reports them per rule); accepted mutants must round-trip (text parses back to the mutant AST) to be judged. Not modelled: const expressions beyond literals, join, generics-free language has no further rules. Trusted: printer, projection, TLC.",
         "technique": "TLA+ static-semantics oracle over mutation-generated programs, real checker verdicts validated as a trace",
